@@ -103,7 +103,7 @@ func (r *funcResultsResolver) Results(vs visits) (finalFuncResults FuncResults) 
 		return funcResultsFromSignature(r.sig)
 	}
 
-	return
+	return funcResultsFromSignature(r.sig)
 }
 
 func funcResultsFromSignature(sig *types.Signature) FuncResults {
